@@ -16,9 +16,22 @@ ModOf(c, m) == FoldLeft(LAMBDA acc, ch : (10 * acc + D(ch)) % m, 0, c)
 
 Known == {"nl.bsn", "nl.onderwijsnummer", "pl.nip", "pl.regon", "pt.nif", "dk.cvr", "fi.alv", "no.orgnr", "es.dni", "ee.kmkr", "mt.vat",
           "lu.tva", "gr.vat", "hu.anum", "be.vat", "si.ddv", "at.uid", "br.cpf", "tr.tckimlik", "ch.uid", "it.iva", "se.orgnr", "fr.siren",
-          "ca.sin", "il.idnr", "co.nit", "de.vat", "hr.oib", "ro.cui", "ru.inn", "us.rtn", "au.abn", "au.acn", "au.tfn", "jp.cn"}
+          "ca.sin", "il.idnr", "co.nit", "de.vat", "hr.oib", "ro.cui", "ru.inn", "us.rtn", "au.abn", "au.acn", "au.tfn", "jp.cn",
+          "ar.cuit", "al.nipt", "by.unp", "cl.rut", "cy.vat", "ec.ci", "ee.registrikood", "gb.nhs", "gb.utr", "gt.nit", "is_.vsk",
+          "kr.brn", "me.pib", "mk.edb", "nz.ird", "pe.ruc", "py.ruc", "rs.pib", "tr.vkn", "ua.edrpou", "uy.rut", "ve.rif",
+          "vn.mst", "za.tin", "th.pin", "lt.pvm", "fi.veronumero", "eg.tn", "ma.ice"}
 (* formats with further rules (dates, ranges) that are not transcribed: the checksum is only a NECESSARY condition *)
-Necessary == {"no.fodselsnummer", "fi.hetu", "ch.ssn", "lv.pvn", "pl.pesel"}
+Necessary == {"no.fodselsnummer", "fi.hetu", "ch.ssn", "lv.pvn", "pl.pesel", "ee.ik"}
+
+WRev(c, n, w) == Sum(LAMBDA i : w[i] * D(c[n + 1 - i]), n)      \* weights counted from the right over the first n characters
+LuhnSum(c) == Sum(LAMBDA i : IF (Len(c) - i) % 2 = 1 THEN DigitSum(2 * D(c[i])) ELSE D(c[i]), Len(c))
+Iso1110(c) == FoldLeft(LAMBDA q, ch : ((((IF q = 0 THEN 10 ELSE q) * 2) % 11) + D(ch)) % 10, 5, c)
+IndexIn(ch, s) == CHOOSE i \in 1..Len(s) : s[i] = ch
+In(ch, s) == \E i \in 1..Len(s) : s[i] = ch
+EstonianCheck(c, n) ==        \* check digit over the first n digits: weights 1,2,..,9,1,.. and, when that gives 10, 3,4,..,9,1,2,..
+  LET s1 == Sum(LAMBDA i : (((i - 1) % 9) + 1) * D(c[i]), n) % 11
+      s2 == Sum(LAMBDA i : (((i + 1) % 9) + 1) * D(c[i]), n) % 11
+  IN  IF s1 < 10 THEN s1 ELSE s2 % 10
 
 AcceptN(m, c) ==
   CASE m = "nl.bsn" -> Len(c) = 9 /\ IsDigits(c) /\ ~AllZero(c) /\ (W(c, <<9, 8, 7, 6, 5, 4, 3, 2>>) + 11 * 9 - D(c[9])) % 11 = 0
@@ -80,6 +93,71 @@ AcceptN(m, c) ==
                        /\ LET ws == <<3, 7, 13, 17, 19, 23, 29, 37, 41, 43, 47, 53, 59, 67, 71>>  n == Len(c) - 1
                               s == Sum(LAMBDA i : ws[i] * D(c[n + 1 - i]), n) % 11
                           IN (IF s < 2 THEN s ELSE 11 - s) = D(c[n + 1])
+    [] m = "ar.cuit" -> /\ Len(c) = 11 /\ IsDigits(c) /\ NumOf(c, 1, 2) \in {20, 23, 24, 27, 30, 33, 34, 50, 51, 55}
+                        /\ LET r == 11 - (W(c, <<5, 4, 3, 2, 7, 6, 5, 4, 3, 2>>) % 11) IN (CASE r = 11 -> 0 [] r = 10 -> 9 [] OTHER -> r) = D(c[11])
+    [] m = "al.nipt" -> Len(c) = 10 /\ c[1] \in 65..77 /\ IsDigits(SubSeq(c, 2, 9)) /\ c[10] \in 65..90
+    [] m = "by.unp" -> /\ Len(c) = 9 /\ IsDigits(SubSeq(c, 3, 9))
+                       /\ LET L == <<65, 66, 67, 69, 72, 75, 77, 79, 80, 84>>     \* ABCEHKMOPT
+                              dd == IsDigits(SubSeq(c, 1, 2))  ll == In(c[1], L) /\ In(c[2], L)
+                              v2 == IF dd THEN D(c[2]) ELSE IndexIn(c[2], L) - 1
+                              s == (29 * AlnumVal(c[1]) + 23 * v2 + W(SubSeq(c, 3, 8), <<19, 17, 13, 7, 5, 3>>)) % 11
+                          IN (dd \/ ll) /\ In(c[1], <<49, 50, 51, 52, 53, 54, 55, 65, 66, 67, 69, 72, 75, 77>>) /\ s = D(c[9])
+    [] m = "cl.rut" -> /\ Len(c) \in {8, 9} /\ IsDigits(SubSeq(c, 1, Len(c) - 1))
+                       /\ LET n == Len(c) - 1  r == (11 - (WRev(c, n, <<2, 3, 4, 5, 6, 7, 2, 3>>) % 11)) % 11
+                          IN c[n + 1] = (IF r = 10 THEN 75 ELSE 48 + r)
+    [] m = "cy.vat" -> /\ Len(c) = 9 /\ IsDigits(SubSeq(c, 1, 8)) /\ SubSeq(c, 1, 2) # <<49, 50>>
+                       /\ LET T == <<1, 0, 5, 7, 9, 13, 15, 17, 19, 21>>
+                              s == Sum(LAMBDA i : IF i % 2 = 1 THEN T[D(c[i]) + 1] ELSE D(c[i]), 8)
+                          IN c[9] = 65 + (s % 26)
+    [] m = "ec.ci" -> /\ Len(c) = 10 /\ IsDigits(c) /\ NumOf(c, 1, 2) \in (1..24) \cup {30, 50} /\ D(c[3]) <= 6
+                      /\ Sum(LAMBDA i : IF i % 2 = 1 THEN DigitSum(2 * D(c[i])) ELSE D(c[i]), 10) % 10 = 0
+    [] m = "ee.registrikood" -> Len(c) = 8 /\ IsDigits(c) /\ D(c[1]) \in {1, 7, 8, 9} /\ EstonianCheck(c, 7) = D(c[8])
+    [] m = "gb.nhs" -> Len(c) = 10 /\ IsDigits(c) /\ W(c, <<10, 9, 8, 7, 6, 5, 4, 3, 2, 1>>) % 11 = 0
+    [] m = "gb.utr" -> /\ Len(c) = 10 /\ IsDigits(c)
+                       /\ LET r == W(SubSeq(c, 2, 10), <<6, 7, 8, 9, 10, 5, 4, 3, 2>>) % 11
+                          IN D(c[1]) = <<2, 1, 9, 8, 7, 6, 5, 4, 3, 2, 1>>[r + 1]
+    [] m = "gt.nit" -> /\ Len(c) >= 2 /\ Len(c) <= 12 /\ IsDigits(SubSeq(c, 1, Len(c) - 1))
+                       /\ LET n == Len(c) - 1  r == (11 - (Sum(LAMBDA i : (i + 1) * D(c[n + 1 - i]), n) % 11)) % 11
+                          IN c[n + 1] = (IF r = 10 THEN 75 ELSE 48 + r)
+    [] m = "is_.vsk" -> IsDigits(c) /\ Len(c) \in {5, 6}
+    [] m = "kr.brn" -> /\ Len(c) = 10 /\ IsDigits(c) /\ NumOf(c, 1, 3) >= 101 /\ NumOf(c, 4, 5) # 0 /\ NumOf(c, 6, 9) # 0
+    [] m = "me.pib" -> Len(c) = 8 /\ IsDigits(c) /\ ((11 - (W(c, <<8, 7, 6, 5, 4, 3, 2>>) % 11)) % 11) % 10 = D(c[8])
+    [] m = "mk.edb" -> Len(c) = 13 /\ IsDigits(c) /\ ((11 - (W(c, <<7, 6, 5, 4, 3, 2, 7, 6, 5, 4, 3, 2>>) % 11)) % 11) % 10 = D(c[13])
+    [] m = "nz.ird" -> /\ Len(c) \in {8, 9} /\ IsDigits(c) /\ NumOf(c, 1, Len(c)) > 10000000 /\ NumOf(c, 1, Len(c)) < 150000000
+                       /\ LET z == ZFill(SubSeq(c, 1, Len(c) - 1), 8)
+                              s1 == (11 - (W(z, <<3, 2, 7, 6, 5, 4, 3, 2>>) % 11)) % 11
+                              s2 == (11 - (W(z, <<7, 4, 3, 2, 5, 2, 7, 6>>) % 11)) % 11
+                          IN (IF s1 # 10 THEN s1 ELSE s2) = D(c[Len(c)])
+    [] m = "pe.ruc" -> /\ Len(c) = 11 /\ IsDigits(c) /\ NumOf(c, 1, 2) \in {10, 15, 17, 20}
+                       /\ (11 - (W(c, <<5, 4, 3, 2, 7, 6, 5, 4, 3, 2>>) % 11)) % 10 = D(c[11])
+    [] m = "py.ruc" -> /\ Len(c) >= 1 /\ Len(c) <= 9 /\ IsDigits(c)
+                       /\ LET n == Len(c) - 1 IN ((11 - (Sum(LAMBDA i : (i + 1) * D(c[n + 1 - i]), n) % 11)) % 11) % 10 = D(c[n + 1])
+    [] m = "rs.pib" -> Len(c) = 9 /\ IsDigits(c) /\ Iso1110(c) = 1
+    [] m = "tr.vkn" -> /\ Len(c) = 10 /\ IsDigits(c)
+                       /\ LET s == Sum(LAMBDA i : LET c1 == (D(c[10 - i]) + i) % 10  c2 == (c1 * (2 ^ i)) % 9
+                                                  IN IF c1 = 0 THEN 0 ELSE IF c2 = 0 THEN 9 ELSE c2, 9)
+                          IN (10 - (s % 10)) % 10 = D(c[10])
+    [] m = "ua.edrpou" -> /\ Len(c) = 8 /\ IsDigits(c)
+                          /\ LET w == IF D(c[1]) \in {3, 4, 5} THEN <<7, 1, 2, 3, 4, 5, 6>> ELSE <<1, 2, 3, 4, 5, 6, 7>>
+                                 t1 == W(c, w) % 11
+                                 t2 == (W(c, [i \in 1..7 |-> w[i] + 2]) % 11) % 10
+                             IN (IF t1 < 10 THEN t1 ELSE t2) = D(c[8])
+    [] m = "uy.rut" -> /\ Len(c) = 12 /\ IsDigits(c) /\ NumOf(c, 1, 2) \in 1..22 /\ NumOf(c, 3, 8) # 0 /\ NumOf(c, 9, 11) = 1
+                       /\ (11 - (W(c, <<4, 3, 2, 9, 8, 7, 6, 5, 4, 3, 2>>) % 11)) % 11 = D(c[12])
+    [] m = "ve.rif" -> /\ Len(c) = 10 /\ c[1] \in {86, 69, 74, 80, 71} /\ IsDigits(SubSeq(c, 2, 10))
+                       /\ LET t == CASE c[1] = 86 -> 4 [] c[1] = 69 -> 8 [] c[1] = 74 -> 12 [] c[1] = 80 -> 16 [] c[1] = 71 -> 20
+                              r == (t + W(SubSeq(c, 2, 9), <<3, 2, 7, 6, 5, 4, 3, 2>>)) % 11
+                          IN (IF r < 2 THEN 0 ELSE 11 - r) = D(c[10])
+    [] m = "vn.mst" -> /\ Len(c) \in {10, 13} /\ IsDigits(c) /\ NumOf(c, 3, 9) # 0 /\ (Len(c) = 13 => NumOf(c, 11, 13) # 0)
+                       /\ 10 - (W(c, <<31, 29, 23, 19, 17, 13, 7, 5, 3>>) % 11) = D(c[10])
+    [] m = "za.tin" -> Len(c) = 10 /\ IsDigits(c) /\ D(c[1]) \in {0, 1, 2, 3, 9} /\ LuhnSum(c) % 10 = 0
+    [] m = "th.pin" -> /\ Len(c) = 13 /\ IsDigits(c) /\ D(c[1]) \notin {0, 9}
+                       /\ (11 - (W(c, <<13, 12, 11, 10, 9, 8, 7, 6, 5, 4, 3, 2>>) % 11)) % 10 = D(c[13])
+    [] m = "lt.pvm" -> /\ IsDigits(c) /\ Len(c) \in {9, 12} /\ c[Len(c) - 1] = 49
+                       /\ EstonianCheck(c, Len(c) - 1) = D(c[Len(c)])
+    [] m = "fi.veronumero" -> Len(c) = 12 /\ IsDigits(c)
+    [] m = "eg.tn" -> Len(c) = 9 /\ IsDigits(c)
+    [] m = "ma.ice" -> Len(c) = 15 /\ IsDigits(c) /\ ModOf(c, 97) = 0
 
 (* checksum parts of formats with further rules *)
 NecessaryN(m, c) ==
@@ -92,5 +170,6 @@ NecessaryN(m, c) ==
                        /\ Sum(LAMBDA i : (IF i % 2 = 1 THEN 1 ELSE 3) * D(c[i]), 13) % 10 = 0
     [] m = "lv.pvn" -> /\ Len(c) = 11 /\ IsDigits(c)
                        /\ (c[1] > 51 => W(c, <<9, 1, 4, 8, 3, 10, 2, 5, 7, 6, 1>>) % 11 = 3)
+    [] m = "ee.ik" -> Len(c) = 11 /\ IsDigits(c) /\ EstonianCheck(c, 10) = D(c[11])
     [] m = "pl.pesel" -> Len(c) = 11 /\ IsDigits(c) /\ (10 - (W(c, <<1, 3, 7, 9, 1, 3, 7, 9, 1, 3>>) % 10)) % 10 = D(c[11])
 =============================================================================
